@@ -268,3 +268,17 @@ func describeValue(v Value) string {
 	}
 	return fmt.Sprintf("%T", v)
 }
+
+// isByteSlice: every element is an 8-bit integer (or the slice is empty but not nil)
+func (s SliceV) isByteSlice() bool {
+	if s.B == nil {
+		return false
+	}
+	for i := 0; i < s.Len; i++ {
+		iv, ok := s.B.E[s.Off+i].(IntV)
+		if !ok || iv.T.W != 8 {
+			return false
+		}
+	}
+	return true
+}
